@@ -85,6 +85,11 @@ pub proof fn axiom_buint_shr_u32<const N: usize>(a: BUint<N>, s: u32)
         (s as int) < 64 * N ==> uv(a.shr_spec(s)) == uv(a) / (vstd::arithmetic::power2::pow2(s as nat)),
 {}
 #[verifier::external_body]
+pub proof fn axiom_buint_shl_u32<const N: usize>(a: BUint<N>, s: u32)
+    ensures a.shl_req(s) == ((s as int) < 64 * N), <BUint<N> as ShlSpec<u32>>::obeys_shl_spec(),
+        (s as int) < 64 * N ==> uv(a.shl_spec(s)) == (uv(a) * vstd::arithmetic::power2::pow2(s as nat)) % pow_w(N as nat),
+{}
+#[verifier::external_body]
 pub proof fn axiom_buint_eq<const N: usize>(a: BUint<N>, b: BUint<N>)
     ensures <BUint<N> as vstd::std_specs::cmp::PartialEqSpec<BUint<N>>>::obeys_eq_spec(),
         a.eq_spec(&b) == (uv(a) == uv(b)),
@@ -126,5 +131,21 @@ pub proof fn lemma_bitlen_bound(x: nat, k: nat)
 
 pub assume_specification<const N: usize> [ <BUint<N> as core::convert::From<u64>>::from ] (x: u64) -> (r: BUint<N>)
     ensures N >= 1 ==> uv(r) == x as nat;
+
+
+/// bit length and value: 2^(bits-1) <= x < 2^bits for x > 0
+pub proof fn lemma_bitlen_lower(x: nat)
+    requires x > 0
+    ensures vstd::arithmetic::power2::pow2((bitlen(x) - 1) as nat) <= x
+    decreases x
+{
+    vstd::arithmetic::power2::lemma2_to64();
+    if x == 1 { assert(bitlen(1) == 1) by { assert(bitlen(0) == 0); }; }
+    else {
+        lemma_bitlen_lower(x / 2);
+        vstd::arithmetic::power2::lemma_pow2_unfold((bitlen(x) - 1) as nat);
+        vstd::arithmetic::div_mod::lemma_fundamental_div_mod(x as int, 2);
+    }
+}
 
 } // verus!
